@@ -39,6 +39,11 @@ TGT_SEAMSIM = os.path.join(HERE, "target-seamsim" + TGT_SUFFIX)
 PARSIM = os.path.join(TGT_PARSIM, "release", "parsim")
 SEAMSIM = os.path.join(TGT_SEAMSIM, "release", "seamsim")
 SEAMSIM_DBG = os.path.join(TGT_SEAMSIM, "checked", "seamsim")
+# the library built with its `experimental` feature (thorough tier)
+TGT_PARSIM_EXP = os.path.join(HERE, "target-parsim-exp" + TGT_SUFFIX)
+TGT_SEAMSIM_EXP = os.path.join(HERE, "target-seamsim-exp" + TGT_SUFFIX)
+PARSIM_EXP = os.path.join(TGT_PARSIM_EXP, "release", "parsim")
+SEAMSIM_EXP = os.path.join(TGT_SEAMSIM_EXP, "release", "seamsim")
 
 ENV = dict(os.environ, CARGO_NET_OFFLINE="true")
 # glibc malloc otherwise trims and re-faults the heap top on every large temporary buffer
@@ -62,6 +67,7 @@ def log(*a):
 # each part: (engine, sub-property, {tier: {"count": workloads, "scheds": schedules per workload}})
 PLANS = {
     "C05": [("parsim", "C05", {"quick": dict(count=5000, scheds=20), "thorough": dict(count=60000, scheds=40)}),
+            ("parsim-exp", "C05", {"thorough": dict(count=6000, scheds=12)}),
             ("miri", "C05E3", {"thorough": dict(count=32)})],
     "C03": [("parsim", "C03", {"quick": dict(count=5000, scheds=12), "thorough": dict(count=50000, scheds=30)})],
     "C06": [
@@ -72,20 +78,23 @@ PLANS = {
     "C10": [
         ("seamsim", "C10", {"quick": dict(count=8000), "thorough": dict(count=400000)}),
         ("parsim", "C10P", {"quick": dict(count=1500, scheds=6), "thorough": dict(count=10000, scheds=12)}),
+        ("seamsim-exp", "C10", {"thorough": dict(count=40000)}),
     ],
     "C11": [("seamsim", "C11", {"quick": dict(count=100000), "thorough": dict(count=2000000)}),
-            ("seamsim-checked", "C11", {"thorough": dict(count=300000)})],
+            ("seamsim-checked", "C11", {"quick": dict(count=20000), "thorough": dict(count=300000)})],
     "C12": [("seamsim", "C12", {"quick": dict(count=96), "thorough": dict(count=400)}),
-            ("seamsim-checked", "C12", {"thorough": dict(count=100)})],
+            ("seamsim-checked", "C12", {"quick": dict(count=24), "thorough": dict(count=100)})],
     "C14": [
         ("seamsim", "C14", {"quick": dict(count=100000), "thorough": dict(count=600000)}),
         ("parsim", "C14P", {"quick": dict(count=2000, scheds=6), "thorough": dict(count=20000, scheds=12)}),
+        ("seamsim-checked", "C14", {"quick": dict(count=20000), "thorough": dict(count=200000)}),
     ],
     "C16": [("seamsim", "C16", {"quick": dict(count=48), "thorough": dict(count=120)}),
-            ("seamsim-checked", "C16", {"thorough": dict(count=60)})],
+            ("seamsim-checked", "C16", {"quick": dict(count=24), "thorough": dict(count=60)})],
     "C17": [
         ("seamsim", "C17", {"quick": dict(count=100000), "thorough": dict(count=400000)}),
         ("parsim", "C17P", {"quick": dict(count=4000, scheds=8), "thorough": dict(count=30000, scheds=16)}),
+        ("seamsim-checked", "C17", {"quick": dict(count=20000), "thorough": dict(count=200000)}),
     ],
 }
 
@@ -99,9 +108,9 @@ LEVEL = {
 # ----------------------------------------------------------------------------
 # building
 # ----------------------------------------------------------------------------
-def run_cargo(cwd, extra, what):
+def run_cargo(cwd, extra, what, target=None):
     t0 = time.time()
-    env = dict(ENV, CARGO_TARGET_DIR=TGT_PARSIM if cwd.endswith("parsim") else TGT_SEAMSIM)
+    env = dict(ENV, CARGO_TARGET_DIR=target or (TGT_PARSIM if cwd.endswith("parsim") else TGT_SEAMSIM))
     p = subprocess.run(["cargo", "build", "--offline"] + extra, cwd=cwd, env=env,
                        stdout=subprocess.PIPE, stderr=subprocess.STDOUT, text=True)
     if p.returncode != 0:
@@ -121,11 +130,15 @@ def build(engines):
         took["seamsim"] = run_cargo(os.path.join(HERE, "seamsim"), ["--release"], "seamsim")
     if "seamsim-checked" in engines:
         took["seamsim-checked"] = run_cargo(os.path.join(HERE, "seamsim"), ["--profile", "checked"], "seamsim (checked profile)")
+    if "parsim-exp" in engines:
+        took["parsim-exp"] = run_cargo(os.path.join(HERE, "parsim"), ["--release", "--features", "experimental"], "parsim (experimental feature)", TGT_PARSIM_EXP)
+    if "seamsim-exp" in engines:
+        took["seamsim-exp"] = run_cargo(os.path.join(HERE, "seamsim"), ["--release", "--features", "experimental"], "seamsim (experimental feature)", TGT_SEAMSIM_EXP)
     return took
 
 
 def engine_bin(engine):
-    return {"parsim": PARSIM, "seamsim": SEAMSIM, "seamsim-checked": SEAMSIM_DBG}[engine]
+    return {"parsim": PARSIM, "seamsim": SEAMSIM, "seamsim-checked": SEAMSIM_DBG, "parsim-exp": PARSIM_EXP, "seamsim-exp": SEAMSIM_EXP}[engine]
 
 
 # ----------------------------------------------------------------------------
@@ -237,7 +250,7 @@ def run_part(prop, engine, sub, tier, seed, params, nchild=None, max_candidates=
                 if os.path.exists(out):
                     summaries.append(json.load(open(out)))
                 nxt = rf.get("run_index", count) + 1
-                if len(candidates) < max_candidates and nxt < count and engine == "parsim":
+                if len(candidates) < max_candidates and nxt < count and engine.startswith("parsim"):
                     start(c, nxt)
             else:
                 for q, _, _ in procs.values():
@@ -470,6 +483,7 @@ def ddmin(items, test):
 
 
 def minimise_parsim(cand, budget_s=90):
+    eng = cand["engine"]
     rf = cand["file"]
     sig = sig_of(cand["result"])
     t0 = time.time()
@@ -483,7 +497,7 @@ def minimise_parsim(cand, budget_s=90):
                 break
             trial = dict(rf, workload=w2)
             trial["schedule"] = dict(rf["schedule"], choices=[], deviations=[])
-            got = still_fails("parsim", trial, sig, search=300)
+            got = still_fails(eng, trial, sig, search=300)
             if got:
                 rf = got
                 notes.append(name)
@@ -497,14 +511,14 @@ def minimise_parsim(cand, budget_s=90):
         t["schedule"] = {"policy": {"name": "Deviations", "dev": ds}, "seed": rf["schedule"]["seed"], "choices": [], "deviations": []}
         return t
 
-    full = still_fails("parsim", with_devs(devs), sig)
+    full = still_fails(eng, with_devs(devs), sig)
     if full is not None:
         def test(ds):
             if time.time() - t0 > budget_s * 2:
                 return False
-            return still_fails("parsim", with_devs(ds), sig) is not None
+            return still_fails(eng, with_devs(ds), sig) is not None
         small = ddmin(devs, test)
-        got = still_fails("parsim", with_devs(small), sig)
+        got = still_fails(eng, with_devs(small), sig)
         if got:
             notes.append("schedule: %d -> %d deviations" % (len(devs), len(small)))
             got["schedule"]["policy"] = {"name": "Deviations", "dev": small}
@@ -531,7 +545,7 @@ def finalise_candidate(prop, cand, idx):
     """Minimises, replays in a fresh process, writes the final replay file. Returns its path."""
     engine = cand["engine"]
     try:
-        rf = cand["file"] if engine == "miri" else (minimise_parsim(cand) if engine == "parsim" else minimise_seamsim(cand))
+        rf = cand["file"] if engine == "miri" else (minimise_parsim(cand) if engine.startswith("parsim") else minimise_seamsim(cand))
     except Exception as e:  # minimisation is best effort; the unminimised file is still a replay
         rf = cand["file"]
         rf.setdefault("notes", []).append("minimisation failed: %r" % (e,))
@@ -643,7 +657,7 @@ def write_evidence(prop, tier, seed, parts, wall, violations, known_matched, bui
         for x in merged.get("samples", []):
             if len(samples) < 6:
                 samples.append({"part": "%s/%s" % (engine, sub), "case": x})
-        rules.append("[%s/%s] %s" % (engine, sub, merged.get("rule") or RULES.get(engine, "")))
+        rules.append("[%s/%s] %s" % (engine, sub, merged.get("rule") or RULES.get(engine.replace("-exp", ""), "")))
         if "exhaustive" in merged:
             exhaustive = merged["exhaustive"] if exhaustive is None else (exhaustive and merged["exhaustive"])
     for x in cand_samples:
@@ -659,12 +673,12 @@ def write_evidence(prop, tier, seed, parts, wall, violations, known_matched, bui
     cov["runs_per_hour"] = int(evaluations / wall * 3600) if wall > 0 else 0
     cov["real_components"] = REAL
     engines = {e for (e, _) in parts}
-    if "parsim" in engines and tier == "thorough":
+    if any(e.startswith("parsim") for e in engines) and tier == "thorough":
         conf = chan_conformance(12000)
         cov["channel_model_conformance"] = {"against": "crossbeam-channel (real)", "sequences": conf["sequences"], "operations": conf["operations"], "differences": 0}
     if "miri" in engines:
         cov["miri_cross_check"] = "shipped guard-off build under Miri (real std threads, real crossbeam-channel): no stub"
-    cov["stub_components"] = (STUBS_E1 if "parsim" in engines else []) + (STUBS_E2 if any(e.startswith("seamsim") for e in engines) else [])
+    cov["stub_components"] = (STUBS_E1 if any(e.startswith("parsim") for e in engines) else []) + (STUBS_E2 if any(e.startswith("seamsim") for e in engines) else [])
     cov["known_findings_matched"] = known_matched
     # aggregated: which fault kinds actually fired in this run (not merely configured), per part
     fk = {}
@@ -816,7 +830,7 @@ def chan_conformance(count):
 
 
 def cmd_setup():
-    took = build({"parsim", "seamsim"} if os.path.isdir(os.path.join(HERE, "seamsim")) else {"parsim"})
+    took = build({"parsim", "seamsim", "seamsim-checked"})
     conf = chan_conformance(4000)
     log("setup ok: %s; channel model conforms to crossbeam-channel on %d sequences / %d operations" % (took, conf["sequences"], conf["operations"]))
     return 0
